@@ -141,6 +141,13 @@ func (m *TCPMuxDefault) GetConnByUfrag(ufrag string, isIPv6 bool, local net.IP) 
 		// closed, but its close watcher has not unregistered it yet
 		ok = false
 	}
+	if ok && conn.handedOut {
+		// A conn that already had wrappers is dying once the last one is released.
+		if ok = retainShared(&conn.refs); ok {
+			// drop the temporary reference once the new wrapper holds its own
+			defer conn.refs.Add(-1)
+		}
+	}
 	if ok {
 		conn.ClearAliveTimer()
 	} else {
@@ -150,6 +157,8 @@ func (m *TCPMuxDefault) GetConnByUfrag(ufrag string, isIPv6 bool, local net.IP) 
 			return nil, err
 		}
 	}
+
+	conn.handedOut = true
 
 	return newSharedPacketConn(conn, &conn.refs), nil
 }
